@@ -20,6 +20,7 @@
 // stdin: one run per line
 //   run <prog> <P> <size> <seed> <stay> <faults|-> <flags>          flags: 1 = print ev lines, 2 = always print schedule
 //   replay <prog> <P> <size> <faults|-> <flags> <schedule file>
+#define TBB_PREVIEW_ISOLATED_TASK_GROUP 1
 #include "oneapi/tbb/global_control.h"
 #include "oneapi/tbb/task_arena.h"
 #include "oneapi/tbb/task_group.h"
@@ -31,6 +32,7 @@
 #include "oneapi/tbb/flow_graph.h"
 #include "oneapi/tbb/partitioner.h"
 #include "tbb/governor.h"
+#include "../shim/verif_hb.h"
 #include <cstdio>
 #include <fstream>
 #include <sstream>
@@ -38,6 +40,12 @@
 #include <vector>
 #include <map>
 #include <set>
+
+// white-box observation points (harness/c03/spy.cpp)
+namespace c03spy {
+extern std::vector<void*> parked; extern int pipelines; extern std::set<void*> token_mem; extern std::size_t token_size;
+extern std::map<void*, std::size_t> small_live; extern long small_allocs, small_frees, small_double; extern bool on;
+}
 
 // ---------------------------------------------------------------------------------------------------------------
 // fault plan
@@ -98,25 +106,29 @@ static void fault_point(int kind, int gid) {
         int id = kind * 1000 + k;
         verif::note("throw", (uint64_t)gid, (uint64_t)id);
         M->groups[gid].thrown.push_back(id);
+        verif::note("gw", 0x10000000ull + (uint64_t)id);      // ghost: the exception object is constructed (plain writes) by the throwing thread
         throw Exc{id, gid};
     }
 }
 
-static void obj_reg(const void* p, int type, int gid) {
+static int obj_reg(const void* p, int type, int gid) {
     auto it = M->live.find(p);
     if (it != M->live.end())
         M->fail(std::string("VIOLATION a ") + ot_name[type] + " was constructed on top of a live " + ot_name[it->second.type] + " (id " + S(it->second.id) + ") that was never destroyed");
     M->live[p] = Obj{type, M->next_obj++, gid};
     M->created[type]++;
+    return M->next_obj - 1;
 }
-static void obj_unreg(const void* p, int type) {
+static int obj_unreg(const void* p, int type) {
     auto it = M->live.find(p);
     if (it == M->live.end() || it->second.type != type) {
         M->fail(std::string("VIOLATION a ") + ot_name[type] + " object was destroyed twice (or destroyed without having been constructed)");
-        return;
+        return -1;
     }
+    int id = it->second.id;
     M->live.erase(it);
     M->destroyed[type]++;
+    return id;
 }
 
 Exc::Exc(int i, int g) : id(i), gid(g) { obj_reg(this, T_EXC, -1); }
@@ -142,7 +154,8 @@ template <class Fn> static void body_scope(int gid, Fn fn) {
         if (G.closed) M->fail("VIOLATION a body of group " + S(gid) + " started after the waiting call had exited");
         G.live++; G.bodies++;
     }
-    struct L { int g; ~L() { tick(); M->groups[g].live--; } } l{gid};
+    // ghost: whatever the body wrote (plain) must be visible to the thread that leaves the waiting call
+    struct L { int g; uint64_t cell; ~L() { tick(); verif::note("gw", cell); M->groups[g].live--; } } l{gid, 0x40000000ull + (uint64_t)gid * 0x10000ull + (uint64_t)M->groups[gid].bodies};
     tick(); tick();
     try { fn(); tick(); }
     catch (Exc& e) {       // an exception of a nested group that goes on through this body belongs to this group's work too
@@ -160,8 +173,9 @@ template <class Call> static CallResult guarded(int gid, const char* what, Call 
     CallResult r;
     size_t base = M->live.size();
     try { call(); }
-    catch (Exc& e) { r.caught = e.id; r.threw = true; }
+    catch (Exc& e) { r.caught = e.id; r.threw = true; if (e.id < 4000) verif::note("gr", 0x10000000ull + (uint64_t)e.id); }
     catch (...) { r.threw = true; M->fail(std::string("VIOLATION ") + what + " threw an exception that no body threw (foreign type)"); }
+    for (int k = 1; k <= M->groups[gid].bodies; ++k) verif::note("gr", 0x40000000ull + (uint64_t)gid * 0x10000ull + (uint64_t)k);
     Group& G = M->groups[gid];
     if (G.live != 0) M->fail(std::string("VIOLATION ") + what + " exited (" + (r.threw ? "threw" : "returned") + ") while " + S(G.live) + " bodies of the group were still running");
     G.closed = true;
@@ -260,12 +274,18 @@ struct TF {     // task_group functor: one copy == one function_task
 };
 
 struct Item {   // pipeline token / flow-graph message (value type: the library copies it)
-    int v, gid;
-    Item() : v(-1), gid(0) { obj_reg(this, T_ITEM, 0); }
-    Item(int v_, int g) : v(v_), gid(g) { obj_reg(this, T_ITEM, gid); }
-    Item(const Item& o) : v(o.v), gid(o.gid) { fault_point(K_ITEM, gid); obj_reg(this, T_ITEM, gid); }
-    Item& operator=(const Item& o) { v = o.v; gid = o.gid; return *this; }
-    ~Item() { obj_unreg(this, T_ITEM); }
+    int v, gid, stage;
+    bool token;     // this object lives in memory that token_helper::create_token obtained: it IS a pipeline token
+    void reg() {
+        int id = obj_reg(this, T_ITEM, gid);
+        token = c03spy::token_mem.count(this) != 0;
+        if (token) ev("tnew", id, (long)stage * 1000 + v);
+    }
+    Item() : v(-1), gid(0), stage(-1), token(false) { obj_reg(this, T_ITEM, 0); }
+    Item(int v_, int g, int st = -1) : v(v_), gid(g), stage(st), token(false) { reg(); }
+    Item(const Item& o) : v(o.v), gid(o.gid), stage(o.stage), token(false) { fault_point(K_ITEM, gid); reg(); }
+    Item& operator=(const Item& o) { v = o.v; gid = o.gid; stage = o.stage; return *this; }
+    ~Item() { int id = obj_unreg(this, T_ITEM); if (token) ev("tdel", id, (long)stage * 1000 + v); }
 };
 
 // ---------------------------------------------------------------------------------------------------------------
@@ -356,45 +376,89 @@ static void prog_pinvoke(int nf) {
     }
 }
 
-static void prog_pipeline() {
-    int n = g_size;
-    for (int round = 0; round < 2; ++round) {
-        M->faults_on = (round == 0);
-        std::vector<int> hits(n, 0); g_hits = &hits;
-        std::vector<int> out(n, 0);
-        int gid = M->new_group();
-        int next = 0;
-        CallResult cr = guarded(gid, "parallel_pipeline", [&] {
-            tbb::parallel_pipeline(3,
-                tbb::make_filter<void, Item>(tbb::filter_mode::serial_in_order, [&](tbb::flow_control& fc) -> Item {
-                    Item res;
-                    body_scope(gid, [&] {
-                        if (next >= n) { fc.stop(); return; }
-                        res.v = next++; res.gid = gid;
-                        fault_point(K_BODY, gid);
-                    });
-                    return res;
-                }) &
-                tbb::make_filter<Item, Item>(tbb::filter_mode::parallel, [&](const Item& it) -> Item {
-                    Item res(it.v, gid);
-                    body_scope(gid, [&] { (*g_hits)[it.v]++; fault_point(K_BODY, gid); });
-                    return res;
-                }) &
-                tbb::make_filter<Item, void>(tbb::filter_mode::serial_out_of_order, [&](const Item& it) {
-                    body_scope(gid, [&] { out[it.v]++; fault_point(K_BODY, gid); });
-                }));
-        });
-        check_all_ran(hits, n, "parallel_pipeline", !cr.threw);
-        if (!cr.threw) for (int i = 0; i < n; ++i) if (out[i] != 1) M->fail("VIOLATION parallel_pipeline (non-throwing round) lost or duplicated item " + S(i));
-    }
-}
-
 // naming of the context words for the event log
 static void name_ctx(tbb::task_group_context& c, int gid) {
     if (!M->events) return;
     verif::name_addr(&c.my_cancellation_requested, "cancel");
     verif::name_addr(&c.my_exception, "exc");
     (void)gid;
+}
+
+// after parallel_pipeline exited: every token object of the group that is still alive must be one that was parked in an input buffer at the
+// exit (white-box snapshot taken after quiescence, before ~pipeline); those are accounted for separately (known finding while the tear-down
+// does not clear the buffers: spec flag 4 says that it does)
+static int g_parked_leaked = 0;
+static void pipeline_ledger(int gid, const char* what, bool clears) {
+    std::set<const void*> parked(c03spy::parked.begin(), c03spy::parked.end());
+    std::vector<const void*> drop;
+    int other = 0, first_other = -1;
+    for (auto& kv : M->live) {
+        if (kv.second.gid != gid || kv.second.type != T_ITEM) continue;
+        if (parked.count(kv.first)) drop.push_back(kv.first);
+        else { if (!other) first_other = kv.second.id; other++; }
+    }
+    ev("parked", gid, (long)drop.size());
+    if (other) M->fail(std::string("VIOLATION ") + what + " exited but " + S(other) + " token object(s) that were NOT parked in a buffer are still alive (first: item #" + S(first_other) + ")");
+    if (!drop.empty()) {
+        g_parked_leaked += (int)drop.size();
+        M->fail(std::string("VIOLATION ") + what + " exited but " + S((long)drop.size()) + " token object(s) parked in a serial filter's buffer at cancellation were never destroyed" +
+                (clears ? " although the tear-down is supposed to clear the buffers" : ""));
+        for (const void* q : drop) M->live.erase(q);       // accounted for: not reported again at the end of the run
+    }
+}
+
+// variant 0: serial_in_order -> parallel -> serial_out_of_order;  variant 1: serial_in_order -> parallel -> serial_in_order (more parking);
+// variant 2: parallel input -> serial_out_of_order -> parallel sink
+static bool g_pipe_clears = false;
+static void prog_pipeline(int variant) {
+    int n = g_size;
+    using fm = tbb::filter_mode;
+    fm m0 = variant == 2 ? fm::parallel : fm::serial_in_order;
+    fm m1 = variant == 2 ? fm::serial_out_of_order : fm::parallel;
+    fm m2 = variant == 0 ? fm::serial_out_of_order : variant == 1 ? fm::serial_in_order : fm::parallel;
+    c03spy::token_size = sizeof(Item);
+    for (int round = 0; round < 2; ++round) {
+        M->faults_on = (round == 0);
+        std::vector<int> hits(n, 0); g_hits = &hits;
+        std::vector<int> out(n, 0);
+        int gid = M->new_group();
+        std::atomic<int> next{0};
+        tbb::task_group_context ctx;
+        name_ctx(ctx, gid);
+        int before = c03spy::pipelines;
+        CallResult cr = guarded(gid, "parallel_pipeline", [&] {
+            ev("begin", gid);
+            try {
+                tbb::parallel_pipeline(variant == 1 ? 4 : 3,
+                    tbb::make_filter<void, Item>(m0, [&](tbb::flow_control& fc) -> Item {
+                        Item res;
+                        body_scope(gid, [&] {
+                            int k = next.fetch_add(1, std::memory_order_relaxed);
+                            ev("pb", 0, k);
+                            if (k >= n) { fc.stop(); ev("pstop", 0, k); return; }
+                            res.v = k; res.gid = gid; res.stage = 0;
+                            fault_point(K_BODY, gid);
+                            ev("pe", 0, k);
+                        });
+                        return res;
+                    }) &
+                    tbb::make_filter<Item, Item>(m1, [&](const Item& it) -> Item {
+                        Item res(it.v, gid, 1);
+                        body_scope(gid, [&] { ev("pb", 1, it.v); (*g_hits)[it.v]++; fault_point(K_BODY, gid); ev("pe", 1, it.v); });
+                        return res;
+                    }) &
+                    tbb::make_filter<Item, void>(m2, [&](const Item& it) {
+                        body_scope(gid, [&] { ev("pb", 2, it.v); out[it.v]++; fault_point(K_BODY, gid); ev("pe", 2, it.v); });
+                    }), ctx);
+            } catch (Exc& e) { ev("rethrow", gid, e.id); throw; }
+            ev("ret", gid, ctx.is_group_execution_cancelled() ? 2 : 1);
+        }, /*check_objects=*/false);
+        if (c03spy::pipelines != before + 1) M->fail("harness: the pipeline exit was not observed (white-box hook not in place)");
+        pipeline_ledger(gid, "parallel_pipeline", g_pipe_clears);
+        check_all_ran(hits, n, "parallel_pipeline", !cr.threw);
+        if (!cr.threw) for (int i = 0; i < n; ++i) if (out[i] != 1) M->fail("VIOLATION parallel_pipeline (non-throwing round) lost or duplicated item " + S(i));
+        if (cr.threw && !ctx.is_group_execution_cancelled()) M->fail("VIOLATION parallel_pipeline threw but its context is not cancelled");
+    }
 }
 
 // task_group: run + wait
@@ -555,6 +619,86 @@ static void prog_tg_cancel() {
     }
 }
 
+// task_handle / defer: handles created up front (each holds a wait reference), some submitted with run(handle), one with
+// run_and_wait(handle), one DROPPED without ever being submitted (its task object must still be destroyed exactly once and its reference
+// released, or wait() would never return), one created and submitted by a running task
+static void prog_tg_handle() {
+    int n = g_size < 4 ? 4 : g_size;
+    tbb::task_group tg;
+    for (int round = 0; round < 2; ++round) {
+        M->faults_on = (round == 0);
+        std::vector<int> hits(n + 2, 0); g_hits = &hits;
+        int gid = M->new_group();
+        tbb::task_group_status st = tbb::not_complete;
+        std::function<void()> more = [&] { tbb::task_handle h = tg.defer(TF(gid, n)); tg.run(std::move(h)); };
+        CallResult cr = guarded(gid, "task_group::run_and_wait(task_handle)", [&] {
+            std::vector<tbb::task_handle> hs;
+            for (int i = 0; i < n; ++i) hs.push_back(tg.defer(TF(gid, i, i == 1 ? &more : nullptr)));
+            for (int i = 0; i + 2 < n; ++i) tg.run(std::move(hs[i]));
+            hs[n - 2] = tbb::task_handle{};                       // dropped: never submitted
+            st = tg.run_and_wait(std::move(hs[n - 1]));
+        });
+        if (hits[n - 2] != 0) M->fail("VIOLATION a task_handle that was dropped without being submitted was executed");
+        hits[n - 2] = 1;
+        check_all_ran(hits, n + 1, "task_group (task_handle)", !cr.threw);
+        if (!cr.threw && st != tbb::complete) M->fail("VIOLATION task_group::run_and_wait(task_handle) returned status " + S(st) + " although nothing threw and nobody cancelled" + (round ? " (group not reusable)" : ""));
+        if (tg.context().is_group_execution_cancelled()) M->fail("VIOLATION task_group: the context is still cancelled after the waiting call exited");
+    }
+}
+
+// isolated_task_group: run / run_and_wait / wait go through this_task_arena::isolate delegates
+static void prog_itg() {
+    int n = g_size;
+    tbb::isolated_task_group tg;
+    for (int round = 0; round < 2; ++round) {
+        M->faults_on = (round == 0);
+        std::vector<int> hits(n + 1, 0); g_hits = &hits;
+        int gid = M->new_group();
+        tbb::task_group_status st = tbb::not_complete;
+        CallResult cr = guarded(gid, "isolated_task_group::run_and_wait / wait", [&] {
+            for (int i = 0; i + 1 < n; ++i) tg.run(TF(gid, i));
+            TF last(gid, n - 1);
+            if (n % 2) st = tg.run_and_wait(last);
+            else { tg.run(last); st = tg.wait(); }
+        });
+        check_all_ran(hits, n, "isolated_task_group", !cr.threw);
+        if (!cr.threw && st != tbb::complete) M->fail("VIOLATION isolated_task_group returned status " + S(st) + " although nothing threw and nobody cancelled" + (round ? " (group not reusable)" : ""));
+    }
+}
+
+// parallel_for_each over value items (the library copies each item into a task); bodies of the later items wait until the group is being
+// cancelled (or a budget runs out) and THEN add feeder items: the copies made for them must be destroyed exactly once, their bodies must
+// not start after the call exited
+static void prog_pforeach_cancel() {
+    int n = g_size;
+    for (int round = 0; round < 2; ++round) {
+        M->faults_on = (round == 0);
+        std::vector<int> hits(2 * n + 2, 0); g_hits = &hits;
+        int gid = M->new_group();
+        std::vector<Item> items;
+        items.reserve(n);
+        bool fon = M->faults_on;
+        for (int i = 0; i < n; ++i) { M->faults_on = false; items.emplace_back(i, gid); M->faults_on = fon; }
+        CallResult cr = guarded(gid, "parallel_for_each (feeder items added while cancelling)", [&] {
+            tbb::parallel_for_each(items.begin(), items.end(), [gid, n](const Item& it, tbb::feeder<Item>& feeder) {
+                body_scope(gid, [&] {
+                    (*g_hits)[it.v]++;
+                    if (it.v >= 1 && it.v < n) {
+                        for (int k = 0; k < 40 && !ctx_cancelled_now(); ++k) tick();
+                        feeder.add(Item(n + it.v, gid));
+                    }
+                    fault_point(K_BODY, gid);
+                });
+            });
+        }, /*check_objects=*/false);
+        check_all_ran(hits, n, "parallel_for_each", !cr.threw);
+        if (!cr.threw) for (int i = n + 1; i < 2 * n; ++i) if (hits[i] != 1) M->fail("VIOLATION parallel_for_each (non-throwing round) did not process feeder item " + S(i));
+        // (feeder_item_task::finalize releases the wait reference before delete_object: the copy of the last item may be destroyed just
+        // after the call returned — checked at the end of the run: every copy destroyed exactly once)
+        items.clear();
+    }
+}
+
 // task_arena::execute: the functor throws directly, or a parallel_for inside it throws; a second external thread makes
 // the arena full so that one of the two calls is delegated to a worker (exception transported back by delegated_task)
 static tbb::task_arena* g_arena;
@@ -568,9 +712,13 @@ static void arena_user(int who, bool direct) {
         std::vector<int> hits(n, 0);
         int gid = M->new_group();
         int caller = verif::self();
+        char marker = 0;
         CallResult cr = guarded(gid, "task_arena::execute", [&] {
+          ev("xbegin", gid, (long)(std::uintptr_t)&marker);
+          try {
             g_arena->execute([&] {
                 body_scope(gid, [&] {
+                    ev("fbegin", gid, who);
                     if (verif::self() != caller) g_delegated++;
                     // stay inside the arena for a while so that the other callers find it full and have to delegate
                     g_inside.fetch_add(1);
@@ -579,6 +727,7 @@ static void arena_user(int who, bool direct) {
                         for (int i = 0; i < n; ++i) hits[i]++;
                         g_inside.fetch_sub(1);
                         if (fon) { try { fault_point(K_BODY, gid); } catch (...) { if (verif::self() != caller) g_deleg_thrown++; throw; } }
+                        ev("fend", gid, who);
                     }
                     else {
                         int g2 = M->new_group();
@@ -590,6 +739,8 @@ static void arena_user(int who, bool direct) {
                     }
                 });
             });
+          } catch (Exc& e) { ev("xrethrow", gid, e.id); throw; }
+          ev("xret", gid);
         });
         if (!cr.threw) for (int i = 0; i < n; ++i) if (hits[i] != 1) M->fail("VIOLATION task_arena::execute returned normally but element " + S(i) + " ran " + S(hits[i]) + " times");
     }
@@ -597,21 +748,22 @@ static void arena_user(int who, bool direct) {
 }
 
 // flow graph: source try_put -> function_node (unlimited) -> function_node (serial, queueing)
-static void prog_flow() {
+static void prog_flow(bool prio) {
     using namespace tbb::flow;
     int n = g_size;
     graph g;
     int gid = 0;
     std::vector<int>* h1 = nullptr; std::vector<int>* h2 = nullptr;
+    name_ctx(*g.my_context, 0);
     function_node<Item, Item> a(g, unlimited, [&](const Item& it) -> Item {
         Item res(it.v, gid);
         body_scope(gid, [&] { (*h1)[it.v]++; fault_point(K_BODY, gid); });
         return res;
-    });
+    }, prio ? node_priority_t(2) : no_priority);
     function_node<Item, continue_msg> b(g, serial, [&](const Item& it) -> continue_msg {
         body_scope(gid, [&] { (*h2)[it.v]++; fault_point(K_BODY, gid); });
         return continue_msg();
-    });
+    }, prio ? node_priority_t(1) : no_priority);
     make_edge(a, b);
     for (int round = 0; round < 2; ++round) {
         M->faults_on = (round == 0);
@@ -629,8 +781,13 @@ static void prog_flow() {
             }
         }
         CallResult cr = guarded(gid, "graph::wait_for_all", [&] {
-            g.wait_for_all();
+            ev("gbegin", gid);
+            try { g.wait_for_all(); } catch (Exc& e) { ev("gthrow", gid, e.id * 4 + (g.is_cancelled() ? 1 : 0) + (g.exception_thrown() ? 2 : 0)); throw; }
+            ev("gret", gid, (g.is_cancelled() ? 1 : 0) + (g.exception_thrown() ? 2 : 0));
         }, /*check_objects=*/false);     // cancelled graphs keep buffered messages until reset()
+        if (cr.threw && !direct && !g.is_cancelled()) M->fail("VIOLATION graph::wait_for_all threw but is_cancelled() is false");
+        if (!cr.threw && g.exception_thrown()) M->fail("VIOLATION graph::wait_for_all returned normally but exception_thrown() is true");
+        if (!cr.threw && M->groups[gid].thrown.empty() && g.is_cancelled()) M->fail("VIOLATION graph::wait_for_all returned normally, nothing threw, but is_cancelled() is true");
         if (direct) cr.threw = true;     // (round incomplete: do not demand that every message was processed)
         for (int i = 0; i < n; ++i) {
             if (hits1[i] > 1 || hits2[i] > 1) M->fail("VIOLATION flow graph ran a body twice for message " + S(i));
@@ -642,6 +799,8 @@ static void prog_flow() {
         if (cr.threw) {
             if (!direct && !g.exception_thrown()) M->fail("VIOLATION graph::wait_for_all threw but exception_thrown() is false");
             g.reset();
+            ev("greset", gid, (g.is_cancelled() ? 1 : 0) + (g.exception_thrown() ? 2 : 0));
+            if (g.is_cancelled() || g.exception_thrown()) M->fail("VIOLATION graph::reset() left is_cancelled() / exception_thrown() set");
         }
     }
 }
@@ -742,15 +901,62 @@ static void run_program() {
     else if (p == "pinvoke3") prog_pinvoke(3);
     else if (p == "pinvoke5") prog_pinvoke(5);
     else if (p == "pinvoke7") prog_pinvoke(7);
-    else if (p == "pipeline") prog_pipeline();
+    else if (p == "pipeline") prog_pipeline(0);
+    else if (p == "pipeline1") prog_pipeline(1);
+    else if (p == "pipeline2") prog_pipeline(2);
     else if (p == "tg_wait" || p == "tg_tree" || p == "tg_raw") prog_tg(p);
     else if (p == "tg_nested") prog_tg_nested();
     else if (p == "tg_cancel") prog_tg_cancel();
     else if (p == "tg_inner") prog_tg_inner();
+    else if (p == "tg_handle") prog_tg_handle();
+    else if (p == "itg") prog_itg();
+    else if (p == "pforeach_cancel") prog_pforeach_cancel();
     else if (p == "pfor_inner") prog_pfor_inner();
-    else if (p == "flow") prog_flow();
+    else if (p == "flow") prog_flow(false);
+    else if (p == "flow_prio") prog_flow(true);
     else if (p == "raw") prog_raw();
     else M->fail("unknown program " + p);
+}
+
+// task_arena::execute, delegated path: `wo`, `exec_context` and `dt` are locals of r1::execute on the CALLER's stack.  They are found in
+// the access log structurally: inside the stack window below the caller's `xbegin` marker, (1) an exchange X (0 -> 1) followed on the same
+// thread by a release store at X + (offsetof my_exception - offsetof my_cancellation_requested) = the catch block on exec_context;
+// (2) per call window and per thread that ran the functor: the first read-modify-write inside the stack window after the functor ended is
+// `m_wait_ctx.release()`, the last release store of `true` inside the window is `m_completed`.
+static void name_execute_words(const std::vector<verif::Event>& log) {
+    const long doff = (long)offsetof(tbb::task_group_context, my_exception) - (long)offsetof(tbb::task_group_context, my_cancellation_requested);
+    struct Call { std::uintptr_t sp; int caller; size_t from, to; };
+    std::vector<Call> calls;
+    std::map<int, size_t> open;
+    for (size_t i = 0; i < log.size(); ++i) {
+        const verif::Event& e = log[i];
+        if (e.kind != verif::K_NOTE || !e.tag) continue;
+        std::string t = e.tag;
+        if (t == "xbegin") { open[e.tid] = calls.size(); calls.push_back(Call{(std::uintptr_t)e.b, e.tid, i, log.size()}); }
+        else if ((t == "xret" || t == "xrethrow") && open.count(e.tid)) calls[open[e.tid]].to = i;
+    }
+    for (auto& c : calls) {
+        auto inwin = [&](const void* a) { std::uintptr_t x = (std::uintptr_t)a; return x < c.sp && x + 4096 > c.sp; };
+        std::map<int, const void*> lastx;
+        std::map<int, bool> ended;
+        std::map<int, const void*> done;
+        for (size_t i = c.from; i < c.to; ++i) {
+            const verif::Event& e = log[i];
+            if (e.kind == verif::K_NOTE) {
+                std::string t = e.tag ? e.tag : "";
+                if (t == "fend" || t == "throw") ended[e.tid] = true;
+                continue;
+            }
+            if (!e.addr || !inwin(e.addr)) continue;
+            if (e.kind == verif::K_XCHG && e.a == 0 && e.b == 1) lastx[e.tid] = e.addr;
+            else if (e.kind == verif::K_STORE && lastx.count(e.tid) && (const char*)e.addr == (const char*)lastx[e.tid] + doff) {
+                verif::name_addr(lastx[e.tid], "cancel"); verif::name_addr(e.addr, "exc");
+            }
+            if (ended[e.tid] && (e.kind == verif::K_FADD || e.kind == verif::K_FSUB) && !done.count(e.tid)) { verif::name_addr(e.addr, "wo"); done[e.tid] = e.addr; }
+            if (ended[e.tid] && e.kind == verif::K_STORE && e.a == 1 && done.count(e.tid)) done[e.tid] = e.addr;       // keeps the last one
+        }
+        for (auto& kv : done) if (verif::addr_name(kv.second) != "wo") verif::name_addr(kv.second, "done");
+    }
 }
 
 static std::string fmt_faults(Mon& m) {
@@ -773,6 +979,10 @@ static bool run_once(verif::Schedule& sch, const std::string& faults, int flags,
     }
     g_ext_done.store(0);
     verif::clear_names();
+    g_pipe_clears = (flags & 4) != 0;
+    g_parked_leaked = 0;
+    c03spy::parked.clear(); c03spy::token_mem.clear(); c03spy::small_live.clear();
+    c03spy::small_allocs = c03spy::small_frees = c03spy::small_double = 0;
     bool arena_prog = (g_prog == "arena_direct" || g_prog == "arena_nested");
     int nextra = arena_prog ? 2 : 0;
     g_delegated = 0; g_deleg_thrown = 0; g_inside.store(0);
@@ -785,11 +995,19 @@ static bool run_once(verif::Schedule& sch, const std::string& faults, int flags,
             g_arena = &ar;
             ar.initialize();
             g_ext_done.store(100);
+            c03spy::on = true;
             arena_user(0, g_prog == "arena_direct");
             while (g_ext_done.load() < 100 + nextra) _mm_pause();
+            c03spy::on = false;
             g_arena = nullptr;
-        } else run_program();
-        tbb::finalize(h);
+        } else { c03spy::on = true; run_program(); c03spy::on = false; }
+        tbb::finalize(h);       // (blocking: every worker has left)
+        // every small object (task, selector, tree node ...) allocated while the program ran has been deallocated, once (checked after the
+        // workers have left: several task types release their wait reference before their storage is returned)
+        if (c03spy::small_double) mon.fail("VIOLATION " + S(c03spy::small_double) + " small object(s) (task objects) were deallocated twice");
+        bool leak_check = g_prog != "raw";
+        if (leak_check && !c03spy::small_live.empty() && mon.err.empty())
+            mon.fail("VIOLATION " + S((long)c03spy::small_live.size()) + " small object(s) (task objects) allocated for the work were never deallocated (first: " + S((long)c03spy::small_live.begin()->second) + " bytes)");
     });
     for (int k = 0; k < nextra; ++k) bodies.push_back([&, k] {
         while (g_ext_done.load() < 100) _mm_pause();
@@ -801,6 +1019,14 @@ static bool run_once(verif::Schedule& sch, const std::string& faults, int flags,
     fflush(stdout);
     verif::Result r = verif::run(bodies, sch, 6000000);
     std::string err = mon.err;
+    if (!r.deadlock && err.empty()) {
+        verif::HbStats hst;
+        auto races = verif::hb_check(r.log, bodies.size(), &hst);
+        if (!races.empty())
+            err = std::string("VIOLATION not ordered by happens-before (memory orders as the code passes them): ") +
+                  (races[0].cell >= 0x40000000ull ? "what a body of the group wrote and the thread that left the waiting call: " : "the exception object written by the thrower and the thread that rethrew it: ") +
+                  verif::hb_describe(r.log, races[0]);
+    }
     if (r.deadlock) err = "VIOLATION HANG: every live thread is parked (the waiting call never returns)" + (err.empty() ? std::string() : " | earlier: " + err);
     if (!r.deadlock && err.empty() && !mon.live.empty()) {
         auto& o = mon.live.begin()->second;
@@ -816,14 +1042,16 @@ static bool run_once(verif::Schedule& sch, const std::string& faults, int flags,
     {
         int thrown = 0, bodies_n = 0, maxthrown = 0;
         for (auto& g : mon.groups) { thrown += (int)g.thrown.size(); bodies_n += g.bodies; if ((int)g.thrown.size() > maxthrown) maxthrown = (int)g.thrown.size(); }
-        printf("stat groups=%zu bodies=%d thrown=%d maxthrown=%d steps=%zu delegated=%d delegthrown=%d\n", mon.groups.size(), bodies_n, thrown, maxthrown, r.steps, g_delegated, g_deleg_thrown);
+        printf("stat groups=%zu bodies=%d thrown=%d maxthrown=%d steps=%zu delegated=%d delegthrown=%d parkedleak=%d smallobj=%ld smallfree=%ld\n", mon.groups.size(), bodies_n, thrown, maxthrown, r.steps,
+               g_delegated, g_deleg_thrown, g_parked_leaked, c03spy::small_allocs, c03spy::small_frees);
     }
+    if (mon.events && g_prog == "arena_direct") name_execute_words(r.log);
     if (mon.events) {
         for (auto& e : r.log) {
             if (e.kind == verif::K_NOTE) { printf("ev %s\n", verif::format_event(e).c_str()); continue; }
             if (!e.addr) continue;
             std::string nm = verif::addr_name(e.addr);
-            if (nm == "cancel" || nm == "exc") printf("ev %s\n", verif::format_event(e).c_str());
+            if (nm == "cancel" || nm == "exc" || nm == "wo" || nm == "done") printf("ev %s\n", verif::format_event(e).c_str());
         }
     }
     printf("mon %s\n", ok ? "ok" : err.c_str());
